@@ -94,7 +94,8 @@ class _bornmayer(_Potential_Function_Base):
     :param A: Potential parameter
     :param rho: Potential parameter :math:`\\rho`
     :return: Potential energy"""
-    return buck(r, A,rho,0.0)
+    # (not buck(r, A, rho, 0.0): its dispersion term 0.0/r**6 cannot be evaluated at r = 0, where this form is A)
+    return A * math.exp(-r/rho)
 
   def deriv(self, r, A, rho):
     """Return derivative of Born-Mayer potential form at `r`
@@ -103,7 +104,7 @@ class _bornmayer(_Potential_Function_Base):
     :param A: Potential parameter
     :param rho: Potential parameter :math:`\\rho`
     :return: Derivative at `r`"""
-    return buck.deriv(r, A, rho, 0.0)
+    return -(A*math.exp(-r/rho))/rho
 
   def deriv2(self, r, A, rho):
     """Return 2nd derivative of Born-Mayer potential form at `r`
@@ -112,7 +113,7 @@ class _bornmayer(_Potential_Function_Base):
     :param A: Potential parameter
     :param rho: Potential parameter :math:`\\rho`
     :return: 2nd derivative at `r`"""
-    return buck.deriv2(r, A, rho, 0.0)
+    return A*math.exp(-r/rho)/rho**2
 
 bornmayer = _bornmayer()
 
